@@ -64,7 +64,7 @@ impl<'c, KD: Kind, const N: usize> MapEng<'c, KD, N> {
             let n = if liar { pre_obs.len() } else { before.len() };
             let take = scale(b, n + 2);
             // 0 drop, 1 run to the end, 2 forget, 3.. = adaptor probe (nth/last/fold/count/skip) on the rest
-            let end = (c as usize * 8) >> 7;
+            let end = (c as usize * (3 + mmv_base::probe::NPROBES)) >> 7;
             let pk = ((_a & 0x1f) as usize * (n + 2)) >> 5;
             cx.bump(S::drains);
             if take > 0 && take < n && end != 1 {
@@ -285,7 +285,7 @@ impl<'c, KD: Kind, const N: usize> MapEng<'c, KD, N> {
             }
             let nv = |raw: u8| KD::vnorm(base | raw as u32);
             // adaptor probe (nth / last / fold / count / skip) taken at the cut point
-            let pwhich = ((c >> 4) as usize * 5) >> 3;
+            let pwhich = ((c >> 3) as usize * mmv_base::probe::NPROBES) >> 4;
             let pk = ((c & 0x0f) as usize * (n + 2)) >> 4;
             const FLIP: u32 = 0x0080_0000;
             let model0 = slot.model.clone();
@@ -612,7 +612,7 @@ impl<'c, KD: Kind, const N: usize> MapEng<'c, KD, N> {
             let n = if liar { pre_obs.len() } else { before.len() };
             let take = scale(b, n + 2);
             // 0 drop, 1 run to the end, 2 forget, 3.. = adaptor probe (nth/last/fold/count/skip) on the rest
-            let end = (c as usize * 8) >> 7;
+            let end = (c as usize * (3 + mmv_base::probe::NPROBES)) >> 7;
             let pk = ((a & 0x1f) as usize * (n + 2)) >> 5;
             cx.bump(S::consumes);
             if take > 0 && take < n && end != 1 {
